@@ -139,6 +139,10 @@ ORDER_PROGRAMS = [p for p in ORDER_PROGRAMS if p]
 
 # exit ecalls that are only recognisable after another exit has been cut, several exit numbers, a7 set far from the ecall
 EXIT_PROGRAMS = [
+    # exits that are recognisable only after the edge behind an earlier exit has been cut (two and three rounds)
+    "main:\n    beqz a0, L\n    li a7, 10\n    ecall\nE2:\n    ecall\n    addi t0, t0, 1\n    li a7, 10\n    ecall\nL:\n    li a7, 93\n    j E2\n",
+    "main:\n    beqz a0, L1\n    bnez a1, L2\n    li a7, 10\n    ecall\nE2:\n    ecall\nE3:\n    ecall\n    addi t0, t0, 1\n    li a7, 10\n    ecall\nL1:\n    li a7, 93\n    j E2\nL2:\n    li a7, 93\n    j E3\n",
+
     "main:\n    li a7, 10\n    beqz a0, quit\n    li a7, 93\n    ecall\nquit:\n    ecall\ncheck:\n    li a0, 0\n    ret\n",
     "main:\n    li a7, 93\n    bnez a0, second\n    ecall\nsecond:\n    li a0, 1\n    ecall\n    addi a0, a0, 1\n",
     "main:\n    li a7, 10\n    li a0, 3\nspin:\n    addi a0, a0, -1\n    bnez a0, spin\n    ecall\nafter:\n    li t0, 1\n    j after\n",
